@@ -5,6 +5,7 @@ package main
 import (
 	"go/constant"
 	"go/token"
+	"regexp"
 	"sort"
 	"strings"
 
@@ -379,6 +380,9 @@ func canonCond(v ssa.Value) (string, bool, bool) {
 	}
 	if b, ok := v.(*ssa.BinOp); ok && isCmp(b.Op) {
 		x, y := pathOf(b.X), pathOf(b.Y)
+		if !purePath(x) || !purePath(y) {
+			return "", false, false
+		}
 		switch b.Op {
 		case token.EQL:
 			return x + " == " + y, neg, true
@@ -397,8 +401,17 @@ func canonCond(v ssa.Value) (string, bool, bool) {
 	if _, ok := v.(*ssa.Phi); ok {
 		return "", false, false
 	}
-	return pathOf(v), neg, true
+	if p := pathOf(v); purePath(p) {
+		return p, neg, true
+	}
+	return "", false, false
 }
+
+var purePathRe = regexp.MustCompile(`^(nil|const:[^()\[\]]*|[A-Za-z_][\w]*(\.[A-Za-z_]\w*|\[[A-Za-z_][\w.]*\])*)$`)
+
+// purePath: a parameter/field access path (optionally indexed by another such path), nil or a constant — a value
+// whose identity the path string really determines (no calls, iterators, channel operations, phis or allocations).
+func purePath(p string) bool { return purePathRe.MatchString(p) }
 
 func correlatedConds(fn *ssa.Function) map[*ssa.If]*corrCond {
 	if m, ok := corrCache[fn]; ok {
